@@ -901,6 +901,10 @@ func enumShape(tier string, s *tbin.Shape, yield func(core.Case) bool) bool {
 			// runs escape the quote) and that contain brackets
 			{"unknown-object-backslashes-before", "shape/unknown-member", `{"zz":{"dir":"C:\\","p":"a\\\\","q":"x\\\"}","r":["\\",{"s":"]\\"}]},"f1":` + val + `}`},
 			{"unknown-array-backslashes-after", "shape/unknown-member", `{"f1":` + val + `,"zz":["\\","\\\\","\\\"]","{\\"]}`},
+				// skipped numbers in every spelling of the JSON grammar (fraction, exponent with and without sign, both cases)
+			{"unknown-numbers-before", "shape/unknown-member", `{"zz":1e+5,"zy":-1.25E-7,"zx":6E+2,"zw":0.5,"zv":-0,"zu":1e5,"zt":2E0,"f1":` + val + `}`},
+			{"unknown-numbers-in-array-after", "shape/unknown-member", `{"f1":` + val + `,"zz":[1e+5,-1.25E-7,6E+2,0.5,-0,1e5,2E0,10e-1]}`},
+			{"unknown-number-last", "shape/unknown-member", `{"f1":` + val + `,"zz":3E-2}`},
 		}
 		for _, vr := range variants {
 			d := &j2tDoc{Fam: "shape:" + cls + "/" + vr.name, Trig: vr.trig, IDL: idl, Doc: vr.doc, Oracle: unk}
